@@ -241,7 +241,8 @@ func genToken(t *simrt.Tape) string {
 }
 
 func genStatusOptions(t *simrt.Tape) *imap.StatusOptions {
-	o := &imap.StatusOptions{NumMessages: t.Choose(2) == 0, UIDNext: t.Choose(2) == 0, UIDValidity: t.Choose(2) == 0, NumUnseen: t.Choose(2) == 0, NumDeleted: t.Choose(3) == 0, Size: t.Choose(3) == 0}
+	o := &imap.StatusOptions{NumMessages: t.Choose(2) == 0, UIDNext: t.Choose(2) == 0, UIDValidity: t.Choose(2) == 0, NumUnseen: t.Choose(2) == 0, NumDeleted: t.Choose(3) == 0, Size: t.Choose(3) == 0,
+		AppendLimit: t.Choose(3) == 0, DeletedStorage: t.Choose(4) == 0}
 	if *o == (imap.StatusOptions{}) {
 		o.NumMessages = true
 	}
@@ -531,7 +532,7 @@ func jsonEq(a, b interface{}) (string, string, bool) {
 
 func runC02(r *R) {
 	t := r.P
-	capsVariant := t.Choose(4)
+	capsVariant := t.Choose(5) // (4: IMAP4rev1 + UIDPLUS without MOVE)
 	enable := t.Choose(3)
 	netMode := t.Choose(4)
 	n := 1 + t.Choose(25)
@@ -631,7 +632,7 @@ func runC02(r *R) {
 	readOnly := false // the mailbox was selected with EXAMINE: the server refuses changes and never sets \Seen
 	for _, res := range results {
 		r.Nontrivial = true
-		c02Compare(r, res.op, res.err, b.calls[res.first:res.last], readOnly)
+		c02Compare(r, res.op, res.err, b.calls[res.first:res.last], readOnly, capsVariant == 4)
 		if res.op.Kind == "Select" && res.err == nil {
 			readOnly = res.op.RO
 		}
@@ -721,7 +722,7 @@ func c02Issue(c *imapclient.Client, o c02op) error {
 	return fmt.Errorf("unknown op %s", o.Kind)
 }
 
-func c02Compare(r *R, o c02op, err error, calls []recCall, readOnly bool) {
+func c02Compare(r *R, o c02op, err error, calls []recCall, readOnly bool, uidPlus bool) {
 	mismatch := func(field string, want, got interface{}) {
 		r.Violate("argument-mismatch", o.Kind+"."+field, "%s: the caller passed %s = %v but the backend received %v\n  call: %s\n  backend calls: %s", o.Kind, field, want, got, o, describeRec(calls))
 	}
@@ -791,6 +792,11 @@ func c02Compare(r *R, o c02op, err error, calls []recCall, readOnly bool) {
 		if cp == nil || st == nil || ex == nil {
 			r.Violate("invocation-count", "Move", "Move: neither a backend Move nor the complete COPY+STORE+EXPUNGE fallback was seen\n  call: %s\n  backend calls: %s", o, describeRec(calls))
 			return
+		}
+		// with UIDPLUS the fallback of a UID MOVE must expunge exactly the moved messages (UID EXPUNGE <set>), not
+		// every message that happens to be \Deleted
+		if o.UseUID && uidPlus && (!ex.UIDCmd || ex.NumSet != o.setString()) {
+			mismatch("fallback expunge", "UID EXPUNGE "+o.setString(), fmt.Sprintf("EXPUNGE uid=%v set=%q", ex.UIDCmd, ex.NumSet))
 		}
 		sf := st.V.(imap.StoreFlags)
 		if cp.NumSet != o.setString() || cp.UIDCmd != o.UseUID || cp.S[0] != normMailbox(o.S[0]) || st.NumSet != o.setString() || st.UIDCmd != o.UseUID || sf.Op != imap.StoreFlagsAdd || len(sf.Flags) != 1 || normFlag(sf.Flags[0]) != "\\deleted" {
